@@ -13,7 +13,8 @@ import FP.Proofs.Augment
   `reachBounds` equal);
 * `nxc_kfdcBounds_congr`, `nxc_reachBounds_congr`: the caps are read off `data.get(flow_attr)` of **every** edge of
   the augmented graph — ignored ones included — so they coincide when the attribute coincides there
-  (kFlowDecompCycles: on the SCC edges, up to the default `w_max`; error classes: everywhere, up to the default `0`);
+  (kFlowDecompCycles: on the SCC edges, up to the default `w_max` and up to the floor — the caps are floored since
+  fix fcfd0b0; error classes: everywhere, up to the default `0`);
 * `nxc_fOpt_agree`: on the expansion the copied attribute differs from the node values only on copies of original
   edges that carry an attribute of the same name;
 * the four equalities `nxc_kfdc_node_eq`, `nxc_kcoverc_node_eq`, `nxc_klaec_node_eq`, `nxc_kmpec_node_eq`.
@@ -199,11 +200,11 @@ end WalkAgree
 
 /-! ## the repetition caps -/
 
-/-- `kFlowDecompCycles`: the caps coincide when `data.get(flow_attr, w_max)` coincides on the SCC edges of the
-augmented graph -/
+/-- `kFlowDecompCycles`: the caps coincide when the floor (since fix fcfd0b0) of `data.get(flow_attr, w_max)`
+coincides on the SCC edges of the augmented graph -/
 theorem nxc_kfdcBounds_congr (a b : WalkInput) (h : WalkAgree a b)
     (hcap : ∀ e ∈ a.st.g.edges, isSccEdge a.st.g e = true →
-      (a.fOpt e).getD (a.wmax false) = (b.fOpt e).getD (a.wmax false)) :
+      ((a.fOpt e).getD (a.wmax false)).floor = ((b.fOpt e).getD (a.wmax false)).floor) :
     kfdcBounds a = kfdcBounds b := by
   unfold kfdcBounds capBounds
   simp only
@@ -372,6 +373,25 @@ theorem nxc_fOpt_agree (inp : NodeModeInput) (e : Edge) (d : Rat)
       simp only [Option.getD_some]
       exact hd x q hl hx
 
+/-- … and the *floors* agree unless the copied value has another floor than `d` (the repetition caps are floored since
+fix fcfd0b0) -/
+theorem nxc_fOpt_agree_floor (inp : NodeModeInput) (e : Edge) (d : Rat)
+    (hd : ∀ x q, inp.nf.ng.edgeFlow.lookup x = some q → e = edgeEdge x → q.floor = d.floor) :
+    (((nxcTranslated inp inp.nf.ng).fOpt e).getD d).floor = (((expandWalkInput inp).fOpt e).getD d).floor := by
+  unfold WalkInput.fOpt nxcTranslated expandWalkInput expandFlow
+  simp only
+  rw [List.lookup_append]
+  cases hn : (inp.nf.ng.nodeFlow.map fun p => (nodeEdge p.1, p.2)).lookup e with
+  | some q => rfl
+  | none =>
+    simp only [Option.none_or, Option.getD_none]
+    cases he : (inp.nf.ng.edgeFlow.map fun p => (edgeEdge p.1, p.2)).lookup e with
+    | none => rfl
+    | some q =>
+      obtain ⟨x, hx, hl⟩ := nxc_lookup_edgePart _ _ _ he
+      simp only [Option.getD_some]
+      exact hd x q hl hx
+
 /-! ## the four equalities -/
 
 /-- **kPathCoverCycles(cover_type="node")**: unconditional (the caps are `|E|·|V|` of the augmented expansion) -/
@@ -387,17 +407,19 @@ theorem nxc_kcoverc_node_eq (inp : NodeModeInput) (lp : LP) (hc : Closed inp.nf.
     exact nxc_kcovercLP_congr _ _ (nxc_cover_agree inp hc)
 
 /-- **kFlowDecompCycles**: `hcap` — an original edge `x` that carries an attribute named like the flow attribute and
-whose copy `(x.1.1, x.2.0)` lies inside an SCC of the augmented expansion carries exactly `w_max` -/
+whose copy `(x.1.1, x.2.0)` lies inside an SCC of the augmented expansion carries a value with the floor of `w_max`
+(the caps are floored since fix fcfd0b0; in particular `w_max` itself) -/
 theorem nxc_kfdc_node_eq (inp : NodeModeInput) (given : Option (List Rat)) (lp : LP) (hc : Closed inp.nf.ng.g)
     (hef : ∀ p ∈ inp.nf.ng.edgeFlow, p.1 ∈ inp.nf.ng.g.edges)
     (hcap : ∀ x q, inp.nf.ng.edgeFlow.lookup x = some q →
-      isSccEdge (expandWalkInput inp).st.g (edgeEdge x) = true → q = (expandWalkInput inp).wmax false)
+      isSccEdge (expandWalkInput inp).st.g (edgeEdge x) = true →
+        q.floor = ((expandWalkInput inp).wmax false).floor)
     (h : kfdcNodeLP inp given = .ok lp) : lp = kfdcLP (expandWalkInput inp) given := by
   have hag := nxc_agree inp hc hef
   have hb : kfdcBounds (nxcTranslated inp inp.nf.ng) = kfdcBounds (expandWalkInput inp) := by
     apply nxc_kfdcBounds_congr _ _ hag
     intro e _ hs
-    apply nxc_fOpt_agree
+    apply nxc_fOpt_agree_floor
     intro x q hl hx
     rw [hag.wmax false]
     apply hcap x q hl
@@ -469,7 +491,7 @@ theorem nxc_kmpec_node_eq (inp : NodeModeInput) (lp : LP) (hc : Closed inp.nf.ng
 /-- converse of `nxc_kfdcBounds_congr` -/
 theorem nxc_kfdcBounds_inv (a b : WalkInput) (h : WalkAgree a b) (hb : kfdcBounds a = kfdcBounds b) :
     ∀ e ∈ a.st.g.edges, isSccEdge a.st.g e = true →
-      (a.fOpt e).getD (a.wmax false) = (b.fOpt e).getD (a.wmax false) := by
+      ((a.fOpt e).getD (a.wmax false)).floor = ((b.fOpt e).getD (a.wmax false)).floor := by
   intro e he hs
   unfold kfdcBounds capBounds at hb
   simp only at hb
@@ -477,7 +499,7 @@ theorem nxc_kfdcBounds_inv (a b : WalkInput) (h : WalkAgree a b) (hb : kfdcBound
   have h1 := List.map_inj_left.1 hb e he
   have hs' : sameScc (reachTable a.st.g) e.1 e.2 = true := hs
   rw [if_pos hs', if_pos hs'] at h1
-  exact (Prod.mk.inj h1).2
+  exact Rat.intCast_inj.1 (Prod.mk.inj h1).2
 
 /-- on the copy of an original edge that carries an attribute of the same name the node branch's graph has that value,
 the explicit expansion has none -/
@@ -495,13 +517,15 @@ theorem nxc_fOpt_edgeCopy (inp : NodeModeInput) (x : Edge) (q : Rat)
 
 /-- **the repetition caps of the node branch of `kFlowDecompCycles` equal those of the explicit expansion exactly when**
 every original edge that carries an attribute named like the flow attribute and whose copy lies inside an SCC of the
-augmented expansion carries the value `w_max` (`w_max` itself is always the same on both sides) -/
+augmented expansion carries a value whose floor is that of `w_max` — the caps are floored since fix fcfd0b0 —
+(`w_max` itself is always the same on both sides) -/
 theorem nxc_kfdc_caps_iff (inp : NodeModeInput) (hc : Closed inp.nf.ng.g)
     (hef : ∀ p ∈ inp.nf.ng.edgeFlow, p.1 ∈ inp.nf.ng.g.edges) :
     (nxcTranslated inp inp.nf.ng).wmax false = (expandWalkInput inp).wmax false ∧
     (kfdcBounds (nxcTranslated inp inp.nf.ng) = kfdcBounds (expandWalkInput inp) ↔
       ∀ x q, inp.nf.ng.edgeFlow.lookup x = some q →
-        isSccEdge (expandWalkInput inp).st.g (edgeEdge x) = true → q = (expandWalkInput inp).wmax false) := by
+        isSccEdge (expandWalkInput inp).st.g (edgeEdge x) = true →
+        q.floor = ((expandWalkInput inp).wmax false).floor) := by
   have hag := nxc_agree inp hc hef
   refine ⟨hag.wmax false, ?_, ?_⟩
   · intro hb x q hl hs
@@ -515,7 +539,7 @@ theorem nxc_kfdc_caps_iff (inp : NodeModeInput) (hc : Closed inp.nf.ng.g)
   · intro hcap
     apply nxc_kfdcBounds_congr _ _ hag
     intro e _ hs
-    apply nxc_fOpt_agree
+    apply nxc_fOpt_agree_floor
     intro x q hl hx
     rw [hag.wmax false]
     apply hcap x q hl
